@@ -14,57 +14,78 @@ namespace VelaVerif.Props.C11Roundtrip
 open VelaVerif.Tflite VelaVerif.Tflite.Writer VelaVerif.Tflite.Roundtrip VelaVerif.OpIndices VelaVerif.Gen VelaVerif.Tflite.Demo
 
 /-- **The domain of the round-trip theorem** (decidable; `Roundtrip.subDomain` holds of every subgraph the writer writes, after
-`__init__`). For every written (Cpu) subgraph `ps`:
+`__init__` = `prepSub`). For every written (Cpu) subgraph `ps`:
 
-* `ps.sg.virtualOutputs = []` — otherwise the writer cuts the producers' results off and the reader re-creates other tensors;
-* every written operator (not Const / Placeholder / SubgraphInput) satisfies `opOk`: it is not AssignVariable / CallOnce (the
-  reader would create a virtual output tensor) and it is not convolution-like (the reader would put reshaped clones in place of
-  constant weights / bias; that case is covered separately by `C11Writer.reader_clones_never_written`);
 * every written tensor satisfies `dataOk`: its element type is one the reader knows and its constant data has exactly the size
-  of the written shape — the reader's own `buf.view(dtype).reshape(shape)` (cf. `read_write_roundtrip_tensors`);
-* `inputsNotProduced`: no original input is a result of a written operator (the reader's `Tensor.error`).
+  of the written shape — the reader's own `buf.view(dtype).reshape(shape)` (cf. `C11Writer.read_write_roundtrip_tensors`);
+  without it the reader raises ValueError on a file the writer produced (`roundtrip_dataOk_witness`);
+* `inputsNotProduced`: no original input is a result of a written operator — otherwise the reader stops with `Tensor.error`
+  (`roundtrip_inputsNotProduced_witness`).
 
-Not needed (the normal form says what happens instead): results that are `None` or outputs that are not written tensors are
+Not needed (the normal form says what happens instead): results that are `None` and outputs that are not written tensors are
 dropped (`renResults`, `renList` are `filterMap`s); an operator none of whose results survives vanishes (`Reader.realOps`);
-duplicate tensor names are fine (the order is by (name, insertion index)). -/
+duplicate tensor names are fine (the order is by (name, insertion index)); virtual outputs of the description are cut off by the
+writer (`sgOps`, `sgOuts`) and re-created by the reader; constant weights of convolution-like operators are cloned by the reader. -/
 def RoundtripDomain (d : Desc) : Prop := roundtripDomain d = true
 
 instance (d : Desc) : Decidable (RoundtripDomain d) := inferInstanceAs (Decidable (roundtripDomain d = true))
 
-/-- **read_write_roundtrip.** For every graph description in the domain: if the writer produces a file, the reader accepts it and
-builds exactly the normal form of the description:
+/-- no reader surgery: no written operator is AssignVariable / CallOnce (virtual output) or convolution-like (reshaped clones) -/
+def NoSurgery (d : Desc) : Prop := noSurgery d = true
+
+instance (d : Desc) : Decidable (NoSurgery d) := inferInstanceAs (Decidable (noSurgery d = true))
+
+/-- **read_write_roundtrip.** For every graph description in the domain: if the writer produces a file, reading that file is the
+same computation as normalising the description — the same graph description, or the same failure (the only failures left on the
+domain are those of the reader's cloning step on constant convolution weights, e.g. weights that are not 4-dimensional).
+`normalise d` (Lemmas/TfliteRoundtrip.lean) is defined from `d` without the file:
 
 * tensors: for each written subgraph in order, its tensor list in the writer's order (`sgAll`: the tensor set sorted by
   (name, insertion index)), each tensor in the reader's normal form `normTensor` (name, written shape as both shapes, reader-side
   element type name, `readQuant ∘ quantT`, zero-length data dropped, variable flag, allocation attributes at their defaults, the
-  full range of the element type when quantised);
-* a tensor reference `g` of subgraph `k` becomes `base_k + position of g in sgAll`, `base_k` = number of tensors of the earlier
-  written subgraphs;
-* operators: the reader's listing (`Reader.startupOps`: one Placeholder / Const per tensor without producer, in tensor order;
-  then `Reader.realOps`: the written operators that still produce a tensor, in order) of the renumbered written operators
-  `normROp` (type — `CustomNpuOp` as `Custom` with custom code "ethos-u" —, version, operands in the same order, the results /
-  intermediates that are present, the option payload as written);
+  full range of the element type when quantised); behind them the tensors the reader creates (below);
+* a tensor reference `g` of subgraph `k` becomes `base_k + position of g in sgAll`, `base_k` = number of tensors before it;
+* operators: the renumbered written operators `normROp` (type — `CustomNpuOp` as `Custom` with custom code "ethos-u" —, version,
+  operands in the same order (the operand list after the writer's `src_tensor` restoration), the results / intermediates that are
+  present, the option payload as written), put through the reader's own graph surgery at graph level (`normOps`:
+  `Reader.virtualStep` for AssignVariable / CallOnce, `Reader.cloneStep` for constant convolution weights / bias), then listed as
+  the reader lists them (`Reader.startupOps`: one Placeholder / Const per tensor without producer; `Reader.realOps`: the
+  operators that still produce a tensor);
 * `originalInputs` renumbered, `inputTensors = []`, `outputTensors` = de-duplicated renumbered outputs (after
-  `original_output_positions` expansion), `originalOutputPositions = some positions`, `virtualOutputs = []`, `cpu = true`;
+  `original_output_positions` expansion) followed by the virtual outputs, `originalOutputPositions = some positions`,
+  `cpu = true`;
 * metadata: the writer's list (`metadataToWrite`: the graph's entries, `vela_version`, the offline plan) with names as bytes and
-  zero-length data dropped; the version string passed to the reader. -/
+  zero-length data dropped; the version string passed to the reader.
+
+So: read ∘ write = reader surgery ∘ renumbering ∘ (`src_tensor` restoration of `__init__`) ∘ tensor normal form. The serialisation
+layer itself (tensor records, buffers, operator codes, operand indices, interface lists, metadata) is exact. -/
 theorem read_write_roundtrip (d : Desc) (m : ModelT) (hd : RoundtripDomain d) (h : Writer.write d = .ok m) :
+    Reader.read d.version m = normalise d := by
+  unfold Writer.write at h
+  obtain ⟨enum, _, h⟩ := bind_ok h
+  exact (read_writeWith d enum m hd h).1
+
+/-- **read_write_roundtrip, without surgery.** If moreover no written operator is AssignVariable / CallOnce or convolution-like,
+the reader accepts the file and builds the normal form, in which the operators are just the renumbered written operators
+(`normal_form_without_surgery`) and no tensor is added. -/
+theorem read_write_roundtrip_ok (d : Desc) (m : ModelT) (hd : RoundtripDomain d) (hs : NoSurgery d) (h : Writer.write d = .ok m) :
     ∃ nd, normalise d = .ok nd ∧ Reader.read d.version m = .ok nd := by
   unfold Writer.write at h
   obtain ⟨enum, _, h⟩ := bind_ok h
-  obtain ⟨h1, nd, h2⟩ := read_writeWith d enum m hd h
-  exact ⟨nd, h2, by rw [h1, h2]⟩
+  obtain ⟨h1, h2⟩ := read_writeWith d enum m hd h
+  obtain ⟨nd, h3⟩ := h2 hs
+  exact ⟨nd, h3, by rw [h1, h3]⟩
 
-/-- the same for any iteration order of the operator-code set (cf. `C11Writer.write_deterministic`), as an equation between the
-two `Except` values -/
+/-- the same for any iteration order of the operator-code set (cf. `C11Writer.write_deterministic`) -/
 theorem read_writeWith_roundtrip (d : Desc) (enum : List Code) (m : ModelT) (hd : RoundtripDomain d) (h : writeWith d enum = .ok m) :
-    Reader.read d.version m = normalise d ∧ ∃ nd, normalise d = .ok nd :=
+    Reader.read d.version m = normalise d ∧ (NoSurgery d → ∃ nd, normalise d = .ok nd) :=
   read_writeWith d enum m hd h
 
-/-- whenever writing succeeds on the domain, normalising does (so the theorem never compares two failures) -/
-theorem normalise_ok (d : Desc) (m : ModelT) (hd : RoundtripDomain d) (h : Writer.write d = .ok m) : ∃ nd, normalise d = .ok nd := by
-  obtain ⟨nd, h1, _⟩ := read_write_roundtrip d m hd h
-  exact ⟨nd, h1⟩
+/-- without surgery the operator part of the normal form is the renumbered operator list; tensor list and virtual outputs are
+untouched -/
+theorem normal_form_without_surgery (ci : OpInfo) (all : List Nat) (b : Nat) (pl : List POp) (k : Nat) (T : List TensorD)
+    (h : ∀ p ∈ pl, OpSimple ci p) : normOps ci all b pl k T = .ok (pl.map (normROp ci all b), T, []) :=
+  normOps_simple ci all b pl k T h
 
 /-! ## non-vacuity: a description in the domain -/
 
@@ -94,7 +115,7 @@ def demo2 : Desc :=
     metadata := [{ nameIsBytes := false, name := bytes "note", data := some (.raw []) }],
     version := bytes "3.10.0" }
 
-example : RoundtripDomain demo2 := by decide +kernel
+example : RoundtripDomain demo2 ∧ NoSurgery demo2 := by decide +kernel
 
 /-- on `demo2` writing succeeds and both sides of the theorem evaluate to the same description -/
 example : (write demo2).toOption.isSome = true ∧
